@@ -218,17 +218,31 @@ def r2_order(ctx):
               f"expansion is `{d}`; documented prefix [:i] + singleton permutation of position i + suffix [i+1:]")
     # add_missing: missing candidates appended as ONE last group, only when there are any
     f = prog.find_func("add_missing_cands")
-    nr = astx.unique_def(f.node, "new_ranking")
     good = False
-    if isinstance(nr, ast.IfExp) and isinstance(nr.body, ast.BinOp):
-        parts = OrderPipe(f.node)._flatten_add(nr.body)
-        tail = parts[-1]
-        k = bool_key(Normalizer(f.node, inline=False).guard(nr.test))
-        good = len(parts) == 2 and isinstance(tail, ast.List) and len(tail.elts) == 1 and re.fullmatch(r"truthy\((\w+)\)", k) is not None \
-            and astx.u(tail.elts[0]) == re.fullmatch(r"truthy\((\w+)\)", k).group(1) and astx.u(nr.orelse).endswith(".ranking")
-        if good:
-            md = astx.unique_def(f.node, astx.u(tail.elts[0]))
-            good = md is not None and re.fullmatch(r"\w+\.difference\(\w+\)", astx.u(md)) is not None
+    nr = None
+    pmf = astx.parents(f.node)
+    ctor = [c for c in astx.calls_in(f.node, "Ballot") if any(k.arg == "ranking" for k in c.keywords)]
+    rk_arg = next((k.value for k in ctor[0].keywords if k.arg == "ranking"), None) if ctor else None
+    src_names = [x.id for x in ast.walk(rk_arg) if isinstance(x, ast.Name)] if rk_arg is not None else []
+    for nm in src_names:
+        cases = astx.value_cases(f.node, nm, astx.stmt_of(ctor[0], pmf), pmf)
+        if not cases or len(cases) != 2:
+            continue
+        Nc = Normalizer(f.node, inline=False)
+        by = {bool_key(Nc.conj(c)): v for c, v in cases}
+        pos = [k for k in by if re.fullmatch(r"truthy\((\w+)\)", k)]
+        if len(pos) != 1 or ("not " + pos[0]) not in by:
+            continue
+        missing = re.fullmatch(r"truthy\((\w+)\)", pos[0]).group(1)
+        nr = by[pos[0]]
+        if isinstance(nr, ast.BinOp):
+            parts = OrderPipe(f.node)._flatten_add(nr)
+            tail = parts[-1]
+            good = len(parts) == 2 and isinstance(tail, ast.List) and len(tail.elts) == 1 and astx.is_name(tail.elts[0], missing) and astx.u(by["not " + pos[0]]).endswith(".ranking")
+            if good:
+                md = astx.unique_def(f.node, missing)
+                good = md is not None and re.fullmatch(r"\w+\.difference\(\w+\)", astx.u(md)) is not None
+        break
     ctx.check(good, f, nr if nr is not None else f.node, "add_missing_cands appends the unlisted candidates as one last tied group", astx.u(nr)[:100] if nr is not None else "",
               "unlisted candidates are not appended as a single final group (only when there are any)")
     if total < 5:
@@ -309,7 +323,7 @@ def r3_weight_provenance(ctx):
                   f"weight share `{k}` is not weight / factorial(len(s)) over itertools.permutations(s) of the same position")
     # resolve_profile_ties expands every ballot
     f = prog.find_func("resolve_profile_ties")
-    comps = [n for n in astx.walk_own(f.node) if isinstance(n, ast.ListComp) and len(n.generators) == 2]
+    comps = [n for n in astx.walk_own(f.node) if isinstance(n, astx.LCOMP) and len(n.generators) == 2]
     good = False
     if comps:
         g0, g1 = comps[0].generators
@@ -326,7 +340,7 @@ def r4_dropped(ctx):
     pm = astx.parents(f.node)
     sites = 0
     for n in astx.walk_own(f.node):
-        if isinstance(n, ast.ListComp) and len(n.generators) == 1 and astx.u(n.generators[0].iter) == "scrubbed_ballots":
+        if isinstance(n, astx.LCOMP) and len(n.generators) == 1 and astx.u(n.generators[0].iter) == "scrubbed_ballots":
             sites += 1
             v = n.generators[0].target.id
             ks = [bool_key(Normalizer(None, inline=False).guard(t)) for t in n.generators[0].ifs]
@@ -373,12 +387,12 @@ def r4_dropped(ctx):
     good = len(cds) == 3 and all("truthy(condense)" in literals(N.conj(astx.path_condition(f.node, c, pm))) for c in cds)
     ctx.check(good, f, cds[0] if cds else f.node, "condense only under the condense flag", "", "condense_ballots is not controlled by the condense flag")
     f = prog.find_func("remove_empty_ballots")
-    comps = [n for n in astx.walk_own(f.node) if isinstance(n, ast.ListComp)]
+    comps = [n for n in astx.walk_own(f.node) if isinstance(n, astx.LCOMP)]
     good = len(comps) == 1 and [astx.u(t) for t in comps[0].generators[0].ifs] == [comps[0].generators[0].target.id + ".ranking"] \
         and astx.is_name(comps[0].elt, comps[0].generators[0].target.id)
     ctx.check(good, f, comps[0] if comps else f.node, "remove_empty_ballots drops exactly the ranking-less ballots", "", "filter is not `if ballot.ranking`")
     f = prog.find_func("remove_noncands")
-    comps = [n for n in f.node.body if isinstance(n, ast.Assign) and isinstance(n.value, ast.ListComp)]
+    comps = [n for n in f.node.body if isinstance(n, ast.Assign) and isinstance(n.value, astx.LCOMP)]
     good = False
     if comps:
         lc = comps[0].value
@@ -421,7 +435,7 @@ def r6_group_and_merge(ctx):
         f = prog.find_func(name)
         gb = astx.unique_def(f.node, "grouped_ballots")
         nb = astx.unique_def(f.node, "new_ballots")
-        good = isinstance(gb, ast.ListComp) and astx.u(gb.elt) == "list(result)" and astx.u(gb.generators[0].iter) == astx.A(f"groupby({src}, key=lambda ballot: ballot.ranking)") and not gb.generators[0].ifs \
+        good = isinstance(gb, astx.LCOMP) and astx.u(gb.elt) == "list(result)" and astx.u(gb.generators[0].iter) == astx.A(f"groupby({src}, key=lambda ballot: ballot.ranking)") and not gb.generators[0].ifs \
             and nb is not None and astx.u(nb) == astx.A("tuple([merge_ballots(b) for b in grouped_ballots])")
         rets = [n for n in astx.walk_own(f.node) if isinstance(n, ast.Return)]
         good = good and len(rets) == 1 and astx.u(rets[0].value) == "PreferenceProfile(ballots=new_ballots)"
